@@ -137,6 +137,10 @@ def StrToInt(input_string):
     :return BV:                     bitvector of the integer resulting from the string or -1 in
                                     bitvector if the string cannot be transformed into an integer
     """
+    # only a non-empty sequence of the digits 0-9 denotes an integer; int() also accepts signs, spaces,
+    # underscores and non-ASCII digits
+    if not (input_string.value.isascii() and input_string.value.isdigit()):
+        return BVV(-1, 64)
     try:
         return BVV(int(input_string.value), 64)
     except ValueError:
